@@ -85,6 +85,10 @@ package claim
 // with the value read from the XR, so the claim's own annotation cannot replace it.
 //@ func (*claim.ServerSideCompositeSyncer).Sync
 //@ props C06 C07
+// the composition reference flows back from the XR only into a claim that has none of its own
+//@ optional site (*claim.Unstructured).SetCompositionReference($c, $ref) as late-init-composition-ref
+//@   where $c == cm
+//@   assert [C07:claims-own-composition-ref-is-never-overwritten] cm.GetCompositionReference() == nil && $ref == xr.GetCompositionReference()
 //@ ghost nameRestored bool = false
 //@ optional site meta.SetExternalName($o, $n) as restore-external-name
 //@   where $o == xrPatch
